@@ -106,7 +106,7 @@ def randint(sym):
         sym.check((o >= a) & (o <= b), f"{which} result in [a,b]")
 
 def shuffle_params(tier):
-    return [dict(n=n) for n in range(0, 6 if tier=='quick' else 7)]
+    return [dict(n=n) for n in range(0, 6 if tier=='quick' else 8)]
 
 @obligation('C05','shuffle', bounds={'quick':"n<=5 items; arbitrary uniform stream (each u_i any grid value in [0,1))",'thorough':"n<=6"},
             functions=FUNCS, params=shuffle_params, stubs=["uniform stream replaced by arbitrary grid values in [0,1)"])
@@ -263,7 +263,7 @@ def _same_terms(sym, a, b):
     return len(a) == len(b) and all(sym.valid(x == y) for x,y in zip(a,b))
 
 def purity_params(tier):
-    return [dict(steps=k) for k in ((2,3) if tier=='quick' else (2,3,4))]
+    return [dict(steps=k) for k in ((2,3) if tier=='quick' else (2,3,4,5))]
 
 @obligation('C05','purity', bounds={'quick':"two instances with independent symbolic seeds + the module-level generator; <=3 calls, method and target of each call chosen by the solver-enumerated schedule; python's random module reseeded/used in between",
                                     'thorough':"<=4 calls"},
